@@ -86,8 +86,8 @@ pub fn graph_to_paths(graph: &Graph) -> Vec<NodePath> {
         .flat_map(|node| paths_for_node(graph, node.id(), &mut HashSet::new()))
         .filter(|path| !path.ids.is_empty())
         .filter(|path| {
+            // (through the graph, which ignores references from removed versions of notes)
             graph
-                .index
                 .get_block_references_to(&graph.node_key(path.first_id()))
                 .is_empty()
                 && graph
@@ -110,7 +110,6 @@ fn paths_for_node(graph: &Graph, id: NodeId, nodes: &mut HashSet<NodeId>) -> Vec
 
     let paths = match graph.graph_node(id) {
         GraphNode::Document(document) => graph
-            .index
             .get_block_references_to(document.key())
             .iter()
             .map(|node_id| graph.node(*node_id))
